@@ -256,7 +256,72 @@ def r5_join_agree(c, facts):
             c.bad(R, 'load-join-base-not-importer', 'module::load no longer joins relative to the importing module locator (found %s)' % shapes[L][1])
 
 
+NARROW = {'take', 'take_while', 'skip', 'skip_while', 'step_by', 'nth', 'last', 'find', 'filter', 'rev', 'peekable', 'map_while', 'scan', 'fuse'}
+
+
+def accessor_complete(c, facts, R, qname, what):
+    """Program::<accessor> yields every child of that kind: children().filter_map(K::cast), nothing narrower"""
+    fn = c.anchor(R, qname)
+    names = [P.strip(callee_of(t)['def']).split('::')[-1] for b, t in fn.calls() if callee_of(t)]
+    cnames = [P.strip(callee_of(t)['def']).split('::')[-1] for f2 in facts.closures_of(fn) for b, t in f2.calls() if callee_of(t)]
+    bad = sorted((set(names) & NARROW) - {'filter'})
+    if 'filter' in names and not set(cnames) <= {'cast', 'is_some', 'clone', 'syntax', 'kind', 'trunk', 'eq'}:
+        bad.append('filter')
+    selects = {'filter_map', 'flat_map', 'filter'} & set(names)
+    if 'children' in names and selects and not bad:
+        c.ok(R, {qname.split('::')[-1]: 'children() selected by cast only (%s): every %s of the program' % (', '.join(sorted(selects)), what)})
+    else:
+        c.bad(R, '%s:narrowed:%s' % (qname.split('::')[-1], ','.join(bad) or 'shape'), '%s no longer yields every %s of the program (%s): the skipped ones are never loaded, declared or emitted' % (qname, what, ', '.join(bad) or names))
+
+
+def r6_complete(c, facts):
+    R = c.rule('C10.R6', 'COMPLETE: every `use` of a module is seen; a cycle is reported only by the topological sort')
+    accessor_complete(c, facts, R, 'oal_syntax::parser::Program::imports', 'import')
+    fn = c.anchor(R, L)
+    # both consumers use the accessor
+    if P.call_blocks(fn, 'Program::imports') and P.call_blocks(c.anchor(R, 'oal_compiler::resolve::resolve'), 'Program::imports'):
+        c.ok(R, {'loader and resolver': 'both enumerate Program::imports()'})
+    else:
+        c.bad(R, 'imports-not-from-accessor', 'module::load or resolve() no longer enumerates Program::imports()')
+    sites = []
+    for f2 in facts.fns.values():
+        if f2.crate != 'oal_compiler' or not f2.mir:
+            continue
+        for b, blk in f2.blocks():
+            for s in blk['stmts']:
+                if s['s'] == 'assign' and s['rv']['r'] == 'aggr' and s['rv'].get('variant') == 'CycleDetected':
+                    sites.append(f2.qname)
+    topo_cl = [cl.qname for cl in facts.closures_of(fn)]
+    if sites and all(q in topo_cl for q in sites):
+        c.ok(R, {'Kind::CycleDetected constructed in': sites})
+    else:
+        c.bad(R, 'cycle-reported-outside-toposort:%s' % ','.join(sorted(set(sites))), 'Kind::CycleDetected is constructed in %s: a cycle is claimed by something other than the failed topological sort (acyclic graphs can be rejected, depending on the order of `use` statements)' % sorted(set(sites)))
+    # no other early error in the already-loaded arm
+    gets = [(b, t) for b, t in P.call_blocks(fn, 'HashMap::get') if b in loop_blocks(fn)]
+    if gets:
+        gb, gt = gets[0]
+        sw = fn.mir['blocks'][gt['target']]['term']
+        cur = gt['target']
+        for _ in range(3):
+            sw = fn.mir['blocks'][cur]['term']
+            if sw['t'] == 'switch':
+                break
+            cur = sw.get('target', cur)
+        if sw['t'] == 'switch':
+            st = [x for v, x in sw['targets'] if v == '1']
+            if st:
+                region = fn.reachable_from(st[0], avoid=[gb])
+                errs = [b for b in region if b in P.err_blocks(fn)]
+                # error exits reachable from the Some arm without starting a new iteration
+                direct = [b for b in errs if b in fn.reachable_from(st[0], avoid=[gb] + [x for x, _ in P.call_blocks(fn, 'Iterator::next')])]
+                if direct:
+                    c.bad(R, 'already-loaded-arm-can-fail', 'the arm for an already loaded import can fail: the loader rejects some acyclic graphs')
+                else:
+                    c.ok(R, {'already loaded import': 'only adds an edge'})
+
+
 def run(c, facts):
+    c.run(r6_complete, facts)
     c.run(r1_once, facts)
     c.run(r2_edge_agree, facts)
     c.run(r3_sorted, facts)
